@@ -334,6 +334,43 @@ def run(tier="quick"):
     for f in classinfo.functions_in_slot(prog, "done"):
         if f.unit.name == "socket.c":
             check_done(chk, prog, f, closer_fns)
+    # F7 an initialiser says whether the object holds a descriptor: on every path to its successful return it has stored the
+    # descriptor field itself (-1 for "none", or what a system call answered) - a field left to memset / to the allocator reads
+    # as descriptor 0, which done() and a later dup() then close although the object never opened it
+    chk.rule("F7", "every initialiser stores the descriptor field (no descriptor = a negative value) before it reports success")
+    ninit = 0
+    for f in u.functions.values():
+        if f.body is None or f.cfg is None or not re.search(r"^spif_socket_init(_|$)", f.name) or not f.params:
+            continue
+        me = "d%d->fd" % f.params[0]["d"]
+        icfg = nullness.prepared_cfg(f, NORETURN)
+        bad7 = []
+
+        def t7(state, n, blk, me=me, f=f):
+            if n.get("k") == "assign" and n.get("op") == "=" and fd_path(n["ch"][0]) == me:
+                cv = X.const_val(n["ch"][1])
+                return frozenset({("fdset",)}) if (cv is None or cv < 0) else frozenset()
+            if n.get("k") == "call":
+                cn = X.callee_name(n) or ""
+                args = n["ch"][1:]
+                if re.match(r"(__builtin_)?(___)?mem(set|cpy|move)", cn) and args and X.apath(args[0]) == me[:-4]:
+                    return frozenset()               # the whole object overwritten: the field holds whatever the fill was
+                if re.search(r"^spif_socket_init(_|$)", cn) and args and X.apath(args[0]) == me[:-4]:
+                    return frozenset({("fdset",)})   # delegated to a sibling initialiser (checked itself)
+            return state
+
+        def v7(state, n, blk, bad7=bad7):
+            if n.get("k") == "return" and n.get("val") is not None and (X.const_val(n["val"]) or 0) != 0 and ("fdset",) not in state \
+                    and not any(m_.startswith("b:ASSERT") or m_.startswith("b:REQUIRE") for m_ in n.get("m", [])):
+                bad7.append(n)
+        flow.forward(icfg, frozenset(), t7, visit=v7)
+        ninit += 1
+        chk.ob("F7", f.name, "init-stores-fd", not bad7, loc=f.loc(bad7[0]) if bad7 else f.loc(f.body),
+               detail="%s reports success on a path on which it has not stored the descriptor field (or stored a non-negative constant): a "
+                      "socket without a descriptor must say fd < 0, otherwise it claims descriptor 0 and done() / a dup() of it close a "
+                      "descriptor the object never opened" % f.name,
+               proof="a store of a negative constant (or of a system call's answer) to fd reaches every successful return")
+    chk.count("socket_initialisers", ninit, floor=2)
     send = prog.need("spif_socket_send")
     nw = check_send(chk, prog, send)
     # receive path
